@@ -411,6 +411,14 @@ fn get_port_range(custom_ports: &Option<PortRange>) -> (u16, u16) {
 
 /// Scale down the nodes
 async fn scale_down_nodes(config: &NodeConfig, count: u16) {
+    // the address text comes from the stored app data: it may be anything
+    let rewards_address = match RewardsAddress::from_str(config.rewards_address.as_str()) {
+        Ok(rewards_address) => rewards_address,
+        Err(err) => {
+            error!("The stored rewards address is not a valid address: {err:?}");
+            return;
+        }
+    };
     match ant_node_manager::cmd::node::maintain_n_running_nodes(
         false,
         config.auto_set_nat_flags,
@@ -431,7 +439,7 @@ async fn scale_down_nodes(config: &NodeConfig, count: u16) {
         None, // We don't care about the port, as we are scaling down
         config.owner.clone(),
         config.peers_args.clone(),
-        RewardsAddress::from_str(config.rewards_address.as_str()).unwrap(),
+        rewards_address,
         None,
         None,
         config.antnode_path.clone(),
@@ -463,6 +471,24 @@ async fn add_nodes(
     max_port: u16,
 ) {
     let mut retry_count = 0;
+
+    // the address text comes from the stored app data: it may be anything
+    let rewards_address = match RewardsAddress::from_str(config.rewards_address.as_str()) {
+        Ok(rewards_address) => rewards_address,
+        Err(err) => {
+            error!("The stored rewards address is not a valid address: {err:?}");
+            send_action(
+                action_sender.clone(),
+                Action::StatusActions(StatusActions::ErrorScalingUpNodes {
+                    raw_error: format!(
+                        "The stored rewards address is not a valid address: {}",
+                        config.rewards_address
+                    ),
+                }),
+            );
+            return;
+        }
+    };
 
     while nodes_to_add > 0 && retry_count < NODE_ADD_MAX_RETRIES {
         // Find the next available port
@@ -505,7 +531,7 @@ async fn add_nodes(
             port_range,
             config.owner.clone(),
             config.peers_args.clone(),
-            RewardsAddress::from_str(config.rewards_address.as_str()).unwrap(),
+            rewards_address,
             None,
             None,
             config.antnode_path.clone(),
